@@ -302,6 +302,36 @@ _m("C15", "Proved for all pairs of values: unordered_eq = true iff PermEq (equal
    "Lookups inside unordered_eq are modelled as scans (justified by C06). No axioms.",
    "Coq proof (greedy matching = removal-based matching; soundness by bijection, completeness by an exchange argument) + correspondence on all small object pairs, permutations, shuffles and mutations")
 
+_m("C01", "Proved for EVERY character sequence and EVERY byte string: the parser model accepts a text iff it is ws value ws in the "
+          "annotated RFC 8259 grammar with strict surrogate decoding (soundness and completeness of the explicit-stack machine through "
+          "the recursive-descent reference), and accepts a byte string iff it is the UTF-8 encoding of such a text (the byte decoder "
+          "accepts exactly well-formed UTF-8: no overlong form, no surrogate, nothing above U+10FFFF); a BOM is rejected; white space is "
+          "exactly the four characters; all text entry points are one function and the byte entry point agrees with them on "
+          "well-formed bytes. Correspondence compares the verdict of 13 real entry-point calls with the model on the shared parse suite.",
+   "No axioms.",
+   "Coq proof (machine = recursive descent <-> annotated grammar; UTF-8 decoder <-> RFC 3629 spec) + correspondence on verdicts of every entry point")
+_m("C02", "Proved for every text and option record: a successful parse returns exactly the value (and code map) the annotated grammar "
+          "says the text denotes, and that denotation is unique; for ALL instances: every non-surrogate \\uXXXX, every high x low pair "
+          "(combined into one scalar), every raw scalar, the eight two-character escapes, every number (verbatim), the literals; "
+          "lookups on an object built from any entry list are linear scans in source order. Correspondence compares the full value and "
+          "every lookup on every key.",
+   "No axioms.",
+   "Coq proof (soundness + completeness + functionality of the denotation; corollaries per clause) + correspondence on values and lookups")
+_m("C05", "Proved for every error-free stream under every option record: the returned code map has one entry per fragment in pre-order, "
+          "entry i's volume is the fragment count of subtree i (root volume = length, every volume >= 1), entry i's span cuts out "
+          "exactly a derivation of fragment i (value, key or entry) beginning and ending on significant characters, all spans lie "
+          "inside the input, the root span excludes surrounding white space, and it is THE code map the grammar assigns. Both entry "
+          "points agree on well-formed bytes. Correspondence compares entire code maps through parse_str and parse_slice.",
+   "No axioms.",
+   "Coq proof (mutual induction on grammar derivations, transferred to the machine through soundness) + correspondence on whole code maps")
+_m("C12", "Proved: the parser implements the grammar jv o for each option record; whatever strict mode accepts is returned unchanged "
+          "(value and code map) under every record; every leniently accepted text is a strict text of the same length with only "
+          "surrogate \\u escapes respelt, denoting the same value and code map; each replaced escape is exactly one U+FFFD; high units "
+          "are replaced only with trunc, low units only with inval (independence), nothing with both off; pairs still combine. "
+          "Correspondence compares value, code map or error under all four records, including every <= 4-element surrogate sequence.",
+   "No axioms.",
+   "Coq proof (monotonicity of the grammar in the options, repair simulation by mutual induction) + correspondence under the four option records")
+
 
 # ----------------------------------------------------------------------------- canonicalization
 def canon_known(case, impl, model, spec):
